@@ -161,7 +161,7 @@ func init() {
 		ID:       "C15",
 		Title:    "error messages locate the offending text in the caller's own string",
 		Explorer: "E1 bounded-exhaustive enumeration of viable prefix x bad token x suffix x spacing, oracle on the error text vs the caller's string",
-		Rule: "prefix = every sequence of <= k items over 9 term forms (incl. synthesised and listed -or-later, '+', WITH, refs) and ( ) AND OR that ends where a term may start (checked with R-gram), bad token in {4 unknown ids, 4 missing-id forms, 4 long lexemes, 5 exception ids standing where a license must stand (plain, -or-later, -only, +: judged only on what the message cites)}, suffix in {none, AND MIT} plus the closing parentheses, rendered loose / tight / padded / glued (keyword written directly against the next token, where this tree accepts that); " +
+		Rule: "prefix = every sequence of <= k items over 9 term forms (incl. synthesised and listed -or-later, '+', WITH, refs) and ( ) AND OR that ends where a term may start (checked with R-gram), bad token in {4 unknown ids, 4 missing-id forms, 4 long lexemes, 5 exception ids standing where a license must stand (plain, -or-later, -only, +: judged only on what the message cites)}, suffix in {none, AND MIT, and for prefixes <= 4 items: AND Apache-2.0-or-later, OR MIT-or-later+ AND GPL-2.0-or-later} plus the closing parentheses, rendered loose / tight / padded / glued (keyword written directly against the next token, where this tree accepts that); " +
 			"state = rendered string, transitions = Satisfies + ExtractLicenses; non-trivial = inputs whose prefix contains a rewritten (-or-later / +) form or a multi-byte spacing, i.e. where the scanner's private index and the caller's offset can differ",
 		Assumptions: []string{"the bad token is the only defect by construction (prefix viability is checked with R-gram)", "the offset is parsed from the message with /offset (\\d+)/, the lexeme with /unknown license '(.*)'/"},
 		Run:         c15Run,
@@ -216,7 +216,12 @@ func c15Run(c *Ctx) {
 			}
 		}
 		for _, bad := range c15Bad {
-			for _, suf := range []int{0, 1} {
+			sufs := []int{0, 1}
+			if len(prefix) <= 4 {
+				// what FOLLOWS the bad token must not move its offset either: suffixes the scanner would rewrite
+				sufs = []int{0, 1, 2, 3}
+			}
+			for _, suf := range sufs {
 				for _, rn := range []string{"loose", "tight", "padded", "glued", "glued-inner"} {
 					if strings.HasPrefix(rn, "glued") && !gluedOK {
 						continue
@@ -235,8 +240,13 @@ func c15Run(c *Ctx) {
 						pre = strings.TrimRight(pre, " ")
 					}
 					at := len(pre) - len(bad.tok)
-					if suf == 1 {
+					switch suf {
+					case 1:
 						seq = append(seq, OpTok("AND"), mit)
+					case 2:
+						seq = append(seq, OpTok("AND"), Tok{Text: "Apache-2.0-or-later", K: TLic})
+					case 3:
+						seq = append(seq, OpTok("OR"), Tok{Text: "MIT-or-later", K: TLic}, Tok{Text: "+", K: TPlus}, OpTok("AND"), Tok{Text: "GPL-2.0-or-later", K: TLic})
 					}
 					for i := 0; i < open; i++ {
 						seq = append(seq, rp)
